@@ -398,8 +398,8 @@ func (c *checker) runCase(k *caseCtx) {
 	var embedded [][]byte
 	var embB []*builtSCT // the embedded SCTs, element for element (an SCT may be embedded more than once)
 	for i, sp := range s.scts {
-		if direct && sp.kind == "unswapped" {
-			continue // identical to "ok" when nothing is swapped
+		if sp.kind == "unswapped" && (direct || bytes.Equal(RP, R)) {
+			continue // identical to "ok" when nothing is swapped (also: a signing certificate named like its issuer, no AKI anywhere)
 		}
 		if strings.HasPrefix(sp.kind, "repeat-") {
 			// the list is a list, not a set: the same serialized SCT embedded again
@@ -791,7 +791,7 @@ func TestCheck(t *testing.T) {
 	if err != nil {
 		t.Fatalf("root: %v", err)
 	}
-	kinds := []string{"p256", "rsa2048", "p384", "ed25519", "rsa2048-spki-without-null"}
+	kinds := []string{"p256", "rsa2048", "p384", "ed25519", "rsa2048-spki-without-null", "p256-signing-cert-named-like-its-issuer"}
 	for _, kd := range kinds {
 		for n := 0; n < 3; n++ {
 			is := newIssuer(kd, n, root)
@@ -850,6 +850,7 @@ func TestCheck(t *testing.T) {
 		c.runFamily(family{"names-and-keys", small, modesQ, c.pick(ecRSA, allN), sers[:1], vals[:1], us[:1], allN, subjectKeys, one, false, false})
 		// issuers whose certificate publishes the key with a non-canonical SubjectPublicKeyInfo
 		c.runFamily(family{"issuer-spki-non-canonical", small, modesQ, c.pick([]string{"rsa2048-spki-without-null"}, []int{0}), sers[:1], vals[:1], us[:1], []int{0}, subjectKeys[:2], one, false, false})
+		c.runFamily(family{"signing-cert-named-like-its-issuer", small, modesQ, c.pick([]string{"p256-signing-cert-named-like-its-issuer"}, []int{0, 1}), sers[:1], vals[:1], us[:1], []int{0}, subjectKeys[:2], one, false, false})
 		// scalar fields: serial x validity x unique ids x issuer key type, <= 1 neighbour
 		c.runFamily(family{"serial-validity-uid", small, modesQ, c.pick(ecRSA, []int{1}), sers, vals, us, []int{0}, subjectKeys[:1], one, false, false})
 		// validity x layout interplay on <= 2 neighbours
